@@ -1,6 +1,7 @@
 import CnlDriver.CS
 import CnlModel.Layered
 import CnlModel.ScaledFloat
+import CnlModel.Elastic
 import CnlDriver.FloatIO
 /-! `C01`–`C04` tables: scaled_integer over built-in representations (operators, division,
 comparison, conversion). -/
@@ -94,6 +95,21 @@ def checkC02 (toks : List String) (res : String) : Option Verdict :=
       | some (_, e, _, v) => some (e == wantE && v == wantV)
       | none => some false
     some { model := showRes showNum m, spec := spec, branch := "bin/" ++ ops, nontrivial := guard }
+  | "quot" :: _ :: rest => do
+    -- cnl::quotient: the true quotient truncated toward zero at the result resolution, in a type
+    -- wide enough that no input overflows
+    let a ← parseScArgs rest
+    let m := Scaled.quotient a.L a.eL a.R a.eR a.l a.r
+    let T := usualArith a.L a.R
+    let conv := T.wrap a.l == a.l && T.wrap a.r == a.r
+    let guard := a.r != 0 && conv
+    let wantV := (a.l * 2^a.R.digits).tdiv a.r
+    let spec : Option Bool := if !guard then none else
+      match parseScRes res with
+      | some (t, e, _, v) => some (e == a.eL - a.eR - a.R.digits && v == wantV && t.inRange wantV)
+      | none => some false
+    some { model := showRes (fun (x : IntTy × Int × Int) => s!"sc({x.1.toString},{x.2.1},2):{x.2.2}") m, spec := spec,
+           branch := "quot", nontrivial := guard }
   | "ident" :: rest => do
     -- (a/b)*b + a%b == a, evaluated by the implementation; the model evaluates the same expression
     let a ← parseScArgs rest
@@ -112,6 +128,17 @@ def checkC02 (toks : List String) (res : String) : Option Verdict :=
 /-- C03: comparisons agree with the order of the denoted values -/
 def checkC03 (toks : List String) (res : String) : Option Verdict :=
   match toks with
+  | ["cmp", ops, dl, nl, dr, nr, l, r] => do
+    -- elastic_integer comparison (digits and narrowest types instead of exponents)
+    let op ← parseCmpOp ops; let dl ← dl.toNat?; let nl ← parseIntTy nl; let dr ← dr.toNat?; let nr ← parseIntTy nr
+    let l ← l.toInt?; let r ← r.toInt?
+    let x : Elastic.ENum := ⟨dl, nl, l⟩; let y : Elastic.ENum := ⟨dr, nr, r⟩
+    let want : Bool := match op with
+      | .lt => decide (l < r) | .le => decide (l ≤ r) | .gt => decide (l > r) | .ge => decide (l ≥ r)
+      | .eq => decide (l = r) | .ne => decide (l ≠ r)
+    let guard := decide x.InRange && decide y.InRange
+    some { model := showRes showBool (Elastic.cmp op x y), spec := if guard then some (showBool want == res) else none,
+           branch := "ecmp/" ++ ops ++ (if nl.signed != nr.signed then "/mixed" else ""), nontrivial := guard }
   | "cmp" :: ops :: rest => do
     let op ← parseCmpOp ops; let a ← parseScArgs rest
     let m := Layered.cmp op a.x a.y
